@@ -462,42 +462,28 @@ def _check_divide(ctx, repo, cls: ClassInfo, init: FuncInfo, alias: dict[str, st
         ctx.violation("R-SAMESLICE", f"{div.qualname}:ensemble_mean", div.loc(call),
                       "ensemble_mean is not passed to the blocks (they fall back to the default)", "ensemble_mean")
 
-    # bounds: loop targets <- zip(excl prefix sums, incl prefix sums)
-    it, tgt = loop.iter, loop.target
-    counter = None
-    if isinstance(it, ast.Call) and dotted(it.func) == "enumerate" and len(it.args) == 1:
-        ctx.require(isinstance(tgt, ast.Tuple) and len(tgt.elts) == 2 and isinstance(tgt.elts[0], ast.Name),
-                    f"{div.qualname}: enumerate target shape")
-        counter = tgt.elts[0].id
-        it, tgt = it.args[0], tgt.elts[1]
-    ctx.require(isinstance(it, ast.Call) and dotted(it.func) == "zip" and len(it.args) == 2 and
-                isinstance(tgt, (ast.Tuple, ast.List)) and len(tgt.elts) == 2 and
-                all(isinstance(e, ast.Name) for e in tgt.elts),
-                f"{div.qualname}: block bounds are not taken from zip(<starts>, <stops>)")
-    hdr = df.cfg.node_of(loop).idx
-    nzh = _N(df, hdr, alias)
-    kinds = {}
-    for name, src in zip((e.id for e in tgt.elts), it.args):
-        src_e, src_at = _follow(df, hdr, src)
-        k = _prefix_kind(_N(df, src_at, alias), src_e)
-        ctx.require(k is not None, f"{div.qualname}: cannot recognise `{norm_text(src)}` as prefix sums of the chunks")
-        kinds[name] = k
+    # bounds: symbolic position of the block inside the loop (sa/rules/partition.py: Σ members before, n in this one)
+    from ..rules.partition import INDEX, PREFIX, SIZE, PartitionEval
+
+    pe = PartitionEval(div, loop, df)
+    ctx.require(pe.recognised, f"{div.qualname}: the loop over the chunks is not a recognised partition loop "
+                               f"(`for {norm_text(loop.target)} in {norm_text(loop.iter)[:60]}`)")
+    counter = next((name for name, v in pe.bind.items() if v == Poly.atom(INDEX)), None)
     if "values" in sl:
-        lo, hi = sl["values"][0], sl["values"][1]
-        lo_n, hi_n = lo[2:] if lo.startswith("1*") else lo, hi[2:] if hi.startswith("1*") else hi
+        e_ = sl["values"][3]
         ctx.check(not sl["values"][2], "R-SAMESLICE", f"{div.qualname}:contiguous", div.loc(call),
                   "blocks are contiguous slices (no step)",
                   f"blocks are strided slices (step {sl['values'][2]}): consecutive blocks do not cover the values",
                   key_detail="step")
-        ctx.require(lo_n in kinds and hi_n in kinds,
-                    f"{div.qualname}: slice bounds `{lo}`:`{hi}` are not the loop's bound variables")
-        (klo, clo), (khi, chi) = kinds[lo_n], kinds[hi_n]
-        good = klo == "excl" and khi == "incl" and clo == chi
+        lo_p = pe.eval(e_.slice.lower, at) if e_.slice.lower is not None else Poly()
+        hi_p = pe.eval(e_.slice.upper, at) if e_.slice.upper is not None else None
+        S_, N_ = Poly.atom(PREFIX), Poly.atom(SIZE)
+        good = lo_p == S_ and hi_p is not None and hi_p == S_ + N_
+        show_ = lambda p_: p_.key().replace("1*", "") if p_ is not None else ""
         ctx.check(good, "R-SAMESLICE", f"{div.qualname}:bounds", div.loc(loop),
-                  f"block i = [Σ_(j<i) chunks_j : Σ_(j≤i) chunks_j] over {clo}",
-                  f"lower bound runs over the {klo}usive prefix sums of {clo} and the upper bound over the "
-                  f"{khi}usive prefix sums of {chi}: the blocks are not consecutive, disjoint and covering",
-                  key_detail="bounds")
+                  f"block i = [Σ_(j<i) chunks_j : Σ_(j≤i) chunks_j] over {pe.sizes}",
+                  f"block i takes [{show_(lo_p)} : {show_(hi_p)}] (Σ = Σ_(j<i) chunks_j, n = chunks_i, k = i) instead of "
+                  "[Σ : Σ + n]: the blocks are not consecutive, disjoint and covering", key_detail="bounds")
     # block i stored at index i
     if isinstance(holder, ast.Assign) and isinstance(holder.targets[0], ast.Subscript):
         idx = holder.targets[0].slice
